@@ -29,6 +29,8 @@ GROUPS = {
         ('void nullable', HEAD + 'union U\n    t Void?\n', R),
         ('explicit void union member', HEAD + 'union U\n    t Void\n', R),
         ('alias cycle', HEAD + 'alias AA = BB\nalias BB = AA\n', R),
+        ('alias self cycle', HEAD + 'alias AA = AA\n', R),
+        ('alias three cycle', HEAD + 'alias AA = BB\nalias BB = CC\nalias CC = AA\n', R),
         ('alias to undefined', HEAD + 'alias AA = Zz\n', R),
         ('annotation undefined', HEAD + 'struct S\n    f Int32\n        @Zz\n', R),
     ],
@@ -62,6 +64,8 @@ GROUPS = {
         ('subtype not enumerated', HEAD + 'struct R\n    union\n        a RA\n    n Int32\nstruct RA extends R\n    x Int32\nstruct RB extends R\n    y Int32\n', R),
         ('tag equals own field', HEAD + 'struct R\n    union\n        n RA\n    n Int32\nstruct RA extends R\n    x Int32\n', R),
         ('nested enumeration', HEAD + 'struct R\n    union\n        a RA\n    n Int32\nstruct RA extends R\n    union\n        c RC\n    x Int32\nstruct RC extends RA\n    z Int32\n', R),
+        ('same tag for two subtypes', HEAD + 'struct R\n    union\n        a RA\n        a RB\n    n Int32\nstruct RA extends R\n    x Int32\nstruct RB extends R\n    y Int32\n', R),
+        ('tag equals inherited-from-nothing field of subtype', HEAD + 'struct R\n    union\n        x RA\n    n Int32\nstruct RA extends R\n    x Int32\n', U),
         ('nullable subtype', HEAD + 'struct R\n    union\n        a RA?\n    n Int32\nstruct RA extends R\n    x Int32\n', U),
     ],
     'nullability_defaults': [
@@ -138,6 +142,27 @@ GROUPS = {
         ('ref through alias of nullable struct', HEAD + 'struct T\n    g Int32\n    example default\n        g = 1\nalias AT = T?\nstruct S\n    t AT\n    example default\n        t = default\n', A),
         ('map example bad key', HEAD + 'struct S\n    m Map(String, Int32)\n    example default\n        m = {1: 1}\n', R),
     ],
+    'redefinitions': [
+        ('alias named like builtin', HEAD + 'alias String = Int32\n', R),
+        ('struct named like builtin', HEAD + 'struct Int32\n    a String\n', R),
+        ('route named like builtin', HEAD + 'route List (Void, Void, Void)\n', R),
+        ('alias after route', HEAD + 'route r (Void, Void, Void)\nalias r = Int32\n', R),
+        ('struct after route', HEAD + 'route r (Void, Void, Void)\nstruct r\n    a Int32\n', R),
+        ('annotation and alias canonical clash', HEAD + 'alias AN = String\nannotation An = Deprecated()\n', R),
+        ('annotation and annotation type canonical clash', HEAD + 'annotation_type Important\n    level Int32\nannotation important = Important(level=1)\n', R),
+        ('annotation type and struct canonical clash', HEAD + 'annotation_type Impo\n    level Int32\nstruct impo\n    a Int32\n', R),
+        ('custom annotation two positional', HEAD + 'annotation_type Imp\n    level Int32\n    tag String\nannotation Hi = Imp(1, "x")\nstruct S\n    a Int32\n        @Hi\n', A),
+        ('custom annotation too many', HEAD + 'annotation_type Imp\n    level Int32\nannotation Hi = Imp(1, 2)\n', R),
+        ('custom annotation wrong kind', HEAD + 'annotation_type Imp\n    level Int32\nannotation Hi = Imp("x")\n', R),
+        ('custom annotation unknown kw', HEAD + 'annotation_type Imp\n    level Int32\nannotation Hi = Imp(zz=1)\n', R),
+        ('custom annotation missing', HEAD + 'annotation_type Imp\n    level Int32\nannotation Hi = Imp()\n', R),
+        ('builtin annotation bad args', HEAD + 'annotation In = Omitted("a", "b")\n', R),
+        ('example map with map key', HEAD + 'struct S\n    m Map(String, Int32)\n    example default\n        m = {{"k": 1}: 2}\n', R),
+        ('example map with list key', HEAD + 'struct S\n    m Map(String, Int32)\n    example default\n        m = {[1]: 2}\n', R),
+        ('truncated struct', HEAD + 'struct S', R),
+        ('first line not namespace', 'alias x = Int32\n', R),
+        ('unbalanced paren', HEAD + 'struct S\n    f Int32)\n', R),
+    ],
     'patches_names': [
         ('patch struct', HEAD + 'struct S\n    a Int32\npatch struct S\n    b Int32\n', A),
         ('patch adds clashing field', HEAD + 'struct S\n    a Int32\npatch struct S\n    a Int32\n', R),
@@ -188,7 +213,7 @@ def _parse_all(specs):
     return asts
 
 
-@hx.harness(props=['C01', 'C03'], targets=['stone.frontend.ir_generator:IRGenerator.generate_IR'], items=sorted(GROUPS),
+@hx.harness(props=['C01', 'C02', 'C03'], targets=['stone.frontend.ir_generator:IRGenerator.generate_IR'], items=sorted(GROUPS),
             bound='a fixed table of (rule, site) specs per group (finite; the solver enumerates the case index): %s'
                   % {g: len(c) for g, c in sorted(GROUPS.items())},
             outside=['specs outside the table'], budget=(120, 300))
@@ -210,7 +235,65 @@ def rule_case(k: int) -> bool:
         if hx.ASPECT == 'C03':
             return hx.ok(True)
         return hx.ok(case[2] != A)
-    return fe.decide(asts, lambda: specs, case[2])
+    return fe.decide(asts, lambda: specs, case[2], fidelity=invariants)
+
+
+def invariants(api):
+    """C02 closure / ordering invariants of an accepted API description"""
+    from stone.ir import is_alias, is_list_type, is_map_type, is_nullable_type, is_user_defined_type
+    names = list(api.namespaces)
+    if names != sorted(names):
+        return False
+    for ns in api.namespaces.values():
+        if [d.name for d in ns.data_types] != sorted(d.name for d in ns.data_types):
+            return False
+        if [a.name for a in ns.aliases] != sorted(a.name for a in ns.aliases):
+            return False
+        if [(r.name, r.version) for r in ns.routes] != sorted((r.name, r.version) for r in ns.routes):
+            return False
+        for al in ns.aliases:                       # aliasing is acyclic and ends in a real type
+            seen, cur = set(), al
+            while is_alias(cur):
+                if id(cur) in seen:
+                    return False
+                seen.add(id(cur))
+                cur = cur.data_type
+            if cur is None:
+                return False
+
+        def closed(dt, depth=0):
+            """every reachable type is fully defined and registered in its namespace"""
+            if depth > 8 or dt is None:
+                return dt is not None
+            if is_alias(dt):
+                return dt.namespace.alias_by_name.get(dt.name) is dt and closed(dt.data_type, depth + 1)
+            if is_nullable_type(dt) or is_list_type(dt):
+                return closed(dt.data_type, depth + 1)
+            if is_map_type(dt):
+                return closed(dt.value_data_type, depth + 1)
+            if is_user_defined_type(dt):
+                return (not dt._is_forward_ref) and dt.namespace.data_type_by_name.get(dt.name) is dt
+            return True
+        for dt in ns.data_types:
+            parent, hops = dt.parent_type, 0
+            while parent is not None:               # inheritance is acyclic
+                hops += 1
+                if hops > 50 or parent is dt:
+                    return False
+                parent = parent.parent_type
+            fields = [f.name for f in dt.all_fields]
+            if len(fields) != len(set(fields)):
+                return False
+            if not all(closed(f.data_type) for f in dt.all_fields):
+                return False
+            lin = ns.linearize_data_types()
+            if dt.parent_type is not None and dt.parent_type.namespace is ns and \
+                    lin.index(dt.parent_type) > lin.index(dt):
+                return False
+        for r in ns.routes:
+            if not (closed(r.arg_data_type) and closed(r.result_data_type) and closed(r.error_data_type)):
+                return False
+    return True
 
 
 def explain(fname, args):
